@@ -101,3 +101,12 @@ Proof.
   - specialize (H 0); discriminate.
   - pose proof (H 0) as H0; simpl in H0; inversion H0; subst. f_equal. apply IH. intros n. apply (H (S n)).
 Qed.
+
+Lemma NoDup_app_intro {A} (l1 l2 : list A) :
+  NoDup l1 -> NoDup l2 -> (forall x, In x l1 -> ~ In x l2) -> NoDup (l1 ++ l2).
+Proof.
+  induction l1 as [|a t IH]; intros H1 H2 Hd; [assumption|].
+  inversion H1 as [|? ? Ha Ht]; subst. simpl. constructor.
+  - intros Hin. apply in_app_or in Hin. destruct Hin as [Hin|Hin]; [contradiction|]. eapply Hd; [left; reflexivity|exact Hin].
+  - apply IH; [assumption|assumption|]. intros x Hx. apply Hd. right; assumption.
+Qed.
